@@ -121,29 +121,52 @@ pub mod verif_hooks {
 pub mod verif_light {
     use super::DSError;
 
-    #[derive(Debug)]
-    pub struct Error(pub DSError);
+    /// Error carrier used under the model checker only: the kind of the
+    /// `DSError` as plain integers (no niche, no heap), so that the solver's
+    /// constant propagation sees through `Result` values.
+    #[derive(Debug, Clone, Copy)]
+    pub struct Error {
+        pub kind: u8,
+        pub val: u16,
+    }
+
+    pub const K_PACKET_TOO_SMALL: u8 = 1;
+    pub const K_PACKET_TOO_LARGE: u8 = 2;
+    pub const K_UNSUPPORTED_CLASS: u8 = 3;
+    pub const K_INTERNAL_ERROR: u8 = 4;
+    pub const K_INVALID_NAME: u8 = 5;
+    pub const K_INVALID_PACKET: u8 = 6;
+    pub const K_UNSUPPORTED_RR_TYPE: u8 = 7;
+    pub const K_UNSUPPORTED_RR_CLASS: u8 = 8;
+    pub const K_VOID_RECORD: u8 = 9;
+    pub const K_PROPERTY_NOT_FOUND: u8 = 10;
+    pub const K_WRONG_ADDRESS_FAMILY: u8 = 11;
+    pub const K_PARSE_ERROR: u8 = 12;
 
     impl From<DSError> for Error {
         #[inline]
         fn from(e: DSError) -> Self {
-            Error(e)
+            let (kind, val) = match e {
+                DSError::PacketTooSmall => (K_PACKET_TOO_SMALL, 0),
+                DSError::PacketTooLarge => (K_PACKET_TOO_LARGE, 0),
+                DSError::UnsupportedClass(c) => (K_UNSUPPORTED_CLASS, c),
+                DSError::InternalError(_) => (K_INTERNAL_ERROR, 0),
+                DSError::InvalidName(_) => (K_INVALID_NAME, 0),
+                DSError::InvalidPacket(_) => (K_INVALID_PACKET, 0),
+                DSError::UnsupportedRRType(_) => (K_UNSUPPORTED_RR_TYPE, 0),
+                DSError::UnsupportedRRClass(_) => (K_UNSUPPORTED_RR_CLASS, 0),
+                DSError::VoidRecord => (K_VOID_RECORD, 0),
+                DSError::PropertyNotFound => (K_PROPERTY_NOT_FOUND, 0),
+                DSError::WrongAddressFamily => (K_WRONG_ADDRESS_FAMILY, 0),
+                DSError::ParseError => (K_PARSE_ERROR, 0),
+            };
+            Error { kind, val }
         }
     }
 
     impl std::fmt::Display for Error {
         fn fmt(&self, f: &mut std::fmt::Formatter<'_>) -> std::fmt::Result {
-            self.0.fmt(f)
-        }
-    }
-
-    impl Error {
-        pub fn downcast<T>(self) -> Result<DSError, Self> {
-            Ok(self.0)
-        }
-
-        pub fn downcast_ref<T>(&self) -> Option<&DSError> {
-            Some(&self.0)
+            write!(f, "error kind {}", self.kind)
         }
     }
 
